@@ -1,2 +1,72 @@
-import Pakhi.Model.Interp
+/-
+  C11 — layout does not matter: optional blanks, newlines and comments are inert.
+
+  Token-level theorems: a `-` directly followed by a digit is the binary operator whenever the
+  previous token ends an operand (`৫-১`, `ক[০]-১`, `(ক)-১`: number, string, identifier, boolean, `)`
+  or `]`), and a negative literal otherwise; blanks of every kind produce no token and only a
+  newline moves the line counter; a comment is one token that the parser drops at every statement
+  start.  That two layouts of one token sequence print the same is decided metamorphically by the
+  C11 check (six layouts per program); the general `tokenize_unlex` theorem is not closed yet.
+-/
+import Pakhi.Lemmas.Lexer
 import Pakhi.Model.Parser
+
+namespace Pakhi
+namespace C11
+
+/-- after an operand-ending token `-digit…` lexes as the operator `-` (one character) -/
+theorem minus_after_operand (d : Char) (rest : Str) (line : Nat) (file : Str) (hd : isNumeric d = true) :
+    consume ('-' :: d :: rest) line file true = mkTok ('-' :: d :: rest) line file .minus 1 := by
+  have h1 : d ≠ '>' := by intro h; subst h; simp [isNumeric] at hd
+  simp only [consume, consumeMinusOrDigit]
+  simp [isNumeric]
+  split
+  · rename_i heq; simp at heq; exact absurd heq.1 h1
+  · rfl
+
+/-- otherwise `-digit…` is a negative literal handled by `consume_num` -/
+theorem minus_not_after_operand (d : Char) (rest : Str) (line : Nat) (file : Str) (hd : isNumeric d = true) :
+    consume ('-' :: d :: rest) line file false = consumeNumTok ('-' :: d :: rest) line file := by
+  simp [consume, consumeMinusOrDigit, nextIsNumeric, hd]
+
+/-- the tokens after which `-` is an operator are exactly: number, string, identifier, boolean, `)`, `]` -/
+theorem operand_enders (k : TK) :
+    endsOperand k = true ↔ (∃ b, k = .num b) ∨ (∃ s, k = .str s) ∨ k = .ident ∨ (∃ b, k = .bool b) ∨ k = .rparen ∨ k = .rsq := by
+  cases k <;> simp [endsOperand]
+
+/-- the operator decision depends on the previous *token*, never on the blanks in between -/
+theorem operator_decision_ignores_blanks (t : Token) (acc : List Token) : lastEndsOperand (t :: acc) = endsOperand t.kind := rfl
+
+/-- space, tab, CR and newline produce no token; only the newline advances the line counter -/
+theorem blanks_are_inert (file : Str) (f : Nat) (b : Char) (src : Str) (line : Nat) (acc : List Token)
+    (hb : b = ' ' ∨ b = '\t' ∨ b = '\r' ∨ b = '\n') :
+    tokenizeLoop file (f+1) (b :: src) line acc = tokenizeLoop file f src (line + if b = '\n' then 1 else 0) acc := by
+  rcases hb with rfl | rfl | rfl | rfl <;> simp [tokenizeLoop, consume, simpleTok?, bnDigitVal?] <;> rfl
+
+/-- any run of blanks between two tokens is skipped without changing the pending tokens -/
+theorem blank_run_inert (file : Str) : ∀ (bs : Str) (f : Nat) (src : Str) (line : Nat) (acc : List Token),
+    (∀ b ∈ bs, b = ' ' ∨ b = '\t' ∨ b = '\r' ∨ b = '\n') →
+    tokenizeLoop file (f + bs.length) (bs ++ src) line acc = tokenizeLoop file f src (line + countNewlines bs) acc
+  | [], f, src, line, acc, _ => by simp [countNewlines]
+  | b :: bs, f, src, line, acc, hb => by
+      have h1 := blanks_are_inert file (f + bs.length) b (bs ++ src) line acc (hb b (by simp))
+      have h2 := blank_run_inert file bs f src (line + if b = '\n' then 1 else 0) acc (fun x hx => hb x (by simp [hx]))
+      have e : f + (b :: bs).length = f + bs.length + 1 := by simp; omega
+      rw [e, List.cons_append, h1, h2]
+      congr 1
+      by_cases hn : b = '\n'
+      · subst hn; simp [countNewlines, List.filter]; omega
+      · have : (b == '\n') = false := by simpa using hn
+        simp [countNewlines, hn, List.filter, this]
+
+/-- a comment block at a statement start is dropped by the parser: the statement that follows is parsed -/
+theorem comment_inert (ctx : PCtx) (f : Nat) (t : Token) (rest : List Token) (prev : Token) (rel : List (Str × List Str))
+    (ht : t.kind = .comment) :
+    pStatement ctx (f+1) { rest := t :: rest, prev := prev, rel := rel } =
+      pStatement ctx f { rest := rest, prev := t, rel := rel } := by
+  simp [pStatement, ht, PS.adv]
+
+example : isNumeric '১' = true := by decide
+
+end C11
+end Pakhi
